@@ -2,6 +2,7 @@
 abort inventory on the response path."""
 import re
 from ..tree import *  # noqa
+from .. import norm as psanorm
 from ..flow import Index
 from ..tables import *  # noqa
 from .. import builders, semterm, fmtstr, callgraph, panics
@@ -69,6 +70,8 @@ def head_token(e):
         name = e["path"].split("::")[-1]
         if name == "Sym" and e["subs"] and e["subs"][0].get("k") == "plit" and e["subs"][0].get("lk") == "bytestr":
             return ("sym", e["subs"][0]["v"])
+        if name == "Sym" and e["subs"] and e["subs"][0].get("k") == "por" and all(a.get("k") == "plit" and a.get("lk") == "bytestr" for a in e["subs"][0]["alts"]):
+            return ("syms", [a["v"] for a in e["subs"][0]["alts"]])
         return (name, [binding_of_pat(x) for x in e["subs"]])
     return ("?", None)
 
@@ -92,12 +95,24 @@ def run(ctx):
     reader = {}
     param_rows = {}
     type_rows = []
+    rows2 = []
     for r in rows:
         if r["kind"] != "slice" or not r["elems"]:
             continue
         ht = head_token(r["elems"][0])
+        if ht[0] == "syms":
+            rows2 += [(r, ("sym", t_)) for t_ in ht[1]]       # Sym(b"not" | b"bvnot"): one row per spelling
+        else:
+            rows2.append((r, ht))
+    for r, ht in rows2:
         arm = r["arm"]
         body = strip_try(peel_block(arm["body"]))
+        if body.get("k") == "blockexpr" and "tail" in body["b"]:
+            # `{ let a = expr(st, a)?; PExpr(ctx.op(a)) }`: evaluate the block with the payload of the result as its value
+            t_ = strip_try(peel_block(body["b"]["tail"]))
+            if t_.get("k") == "ctor" and callee(t_).endswith("ParserItem::PExpr") and len(t_["args"]) == 1:
+                inner = dict(body, b=dict(body["b"], tail=t_["args"][0]))
+                body = dict(t_, args=[inner])
         if ht[0] == "sym":
             tok = ht[1]
             if r["rest"]:
@@ -181,20 +196,68 @@ def run(ctx):
 def binop(ctx):
     """bin_op: LeftAssoc reduces left-to-right over the arguments in order; other classes apply op(a, b) to exactly two"""
     f = ctx.fn("patronus", Pm + "bin_op")
-    txt = show(f["body"]).replace(" ", "")
-    ok = "args.iter().map(|a|parser::expr(st,a)).collect()" in txt and "into_iter().reduce(op).unwrap()" in txt and ".rev()" not in txt
+    ix = Index(f["body"])
+    defs = local_defs(f)
+    pid = param_ids(f) + [None] * 5
+    p_st, p_args, p_op, p_nary = pid[0], pid[2], pid[3], pid[4]         # bin_op(st, name, args, op, n_ary)
+    regions = psanorm.enum_regions(f["body"], p_nary, Pm + "NAry::")
+
+    def converts(e, elem_id):
+        """e is expr(st, <elem>) (through `?` and lets)"""
+        e = strip_try(resolve(strip_try(e)))
+        return e.get("k") == "call" and callee(e) == Pm + "expr" and is_local(e["args"][0], p_st) and is_local(e["args"][1], elem_id)
+
+    def converted_args(e):
+        """e is the list of all arguments, each converted with expr(st, a), in order"""
+        el = psanorm.elementwise(ix, defs, e)
+        if el is None:
+            return False
+        b_, ms_ = chain(el["src"])
+        eb = pat_bindings(el["pat"])
+        in_order = is_local(b_, p_args) and [m[0] for m in ms_] in (["iter"], ["into_iter"], [])
+        return in_order and len(eb) == 1 and converts(psanorm.tail_value(el["elem"]) if el["form"] == "map" else el["elem"], eb[0][1])
+    ok = False
+    left = regions.get("LeftAssoc") if regions else None
+    if left:
+        for n in left:
+            # form A: <converted args>.into_iter().reduce(op)
+            if n.get("k") == "mcall" and n["name"] == "reduce" and is_local(n["args"][0], p_op):
+                b_, ms_ = chain(n["recv"])
+                if [m[0] for m in ms_] in (["into_iter"], ["iter", "copied"], ["iter", "cloned"]) and converted_args(b_):
+                    ok = True
+            # form B: acc = first; for x in rest { acc = op(acc, x) }
+            if n.get("k") == "assign" and peel(n["l"]).get("k") == "local":
+                acc = peel(n["l"])["id"]
+                r = peel(n["r"])
+                lp = ix.enclosing(n, ("for",))
+                if r.get("k") == "callv" and is_local(r["f"], p_op) and len(r["args"]) == 2 and is_local(r["args"][0], acc) and lp is not None:
+                    lb = pat_bindings(lp["pat"])
+                    it = peel(lp["iter"])
+                    acc_init = simple_let_init(defs, acc)
+                    ab, ams = chain(acc_init) if acc_init is not None else ({}, [])
+                    if len(lb) == 1 and is_local(r["args"][1], lb[0][1]) and it.get("k") == "local" and is_local(ab, it["id"]) and [m[0] for m in ams] in (["next", "unwrap"], ["next", "expect"]):
+                        it_init = simple_let_init(defs, it["id"])
+                        ib, ims = chain(it_init) if it_init is not None else ({}, [])
+                        if [m[0] for m in ims] == ["into_iter"] and converted_args(ib) and len(ix.regions[id(n)]) == len(ix.regions[id(lp)]) + 1:
+                            ok = True
     ctx.inst("R14.1", "bin_op:left-assoc-fold", ok, f["span"], "left-associative operators must be folded left to right over the arguments in order")
-    m = [n for n in walk(f["body"]) if n.get("k") == "match" and peel(n["scrut"]).get("k") == "local" and peel(n["scrut"])["name"] == "args"]
     ok2 = False
-    if m:
-        for arm in m[0]["arms"]:
-            p = arm["pat"]
+    other = regions.get("other") if regions else None
+    for n in (other or []):
+        # a two-element slice pattern on the arguments: match arm or if-let
+        pats = []
+        if n.get("k") == "match" and is_local(n["scrut"], p_args):
+            pats = [(arm["pat"], arm["body"]) for arm in n["arms"]]
+        elif n.get("k") == "if" and peel(n["cond"]).get("k") == "letexpr" and is_local(peel(n["cond"])["init"], p_args):
+            pats = [(peel(n["cond"])["pat"], n["then"])]
+        for p, body in pats:
             while p.get("k") in ("pref", "pderef"):
                 p = p["pat"]
-            if p.get("k") == "pslice" and len(p["before"]) == 2 and "mid" not in p:
+            if p.get("k") == "pslice" and len(p["before"]) == 2 and "mid" not in p and not p.get("after"):
                 a, b = [binding_of_pat(x) for x in p["before"]]
-                bt = show(arm["body"]).replace(" ", "")
-                ok2 = "(op)(parser::expr(st,%s)?,parser::expr(st,%s)?)" % (a[0], b[0]) in bt
+                calls = [x for x in walk(body) if x.get("k") == "callv" and is_local(x["f"], p_op)]
+                if a and b and len(calls) == 1 and len(calls[0]["args"]) == 2 and converts(calls[0]["args"][0], a[1]) and converts(calls[0]["args"][1], b[1]):
+                    ok2 = True
     ctx.inst("R14.1", "bin_op:binary-order", ok2, f["span"], "binary operators must apply op to (first argument, second argument)")
 
 
